@@ -329,10 +329,13 @@ pub fn minimise<P: Prop>(p: &P, scn: P::Scn, kind: &str) -> (P::Scn, u64) {
 	let mut cur = scn;
 	let mut budget: i64 = 2000;
 	let mut steps = 0u64;
+	// (wall clock, outside the simulated system: it only bounds how far a LONG failing history is shrunk — every
+	// candidate of such a scenario costs a long run — never whether it is reported; the file written replays either way)
+	let t0 = std::time::Instant::now();
 	'outer: loop {
 		for cand in p.shrink(&cur) {
 			budget -= 1;
-			if budget <= 0 {
+			if budget <= 0 || t0.elapsed().as_secs() > 90 {
 				break 'outer;
 			}
 			let o = exec_caught(p, &cand);
